@@ -19,7 +19,7 @@ Not decided: interleavings as such; the bit arithmetic of StreamIdSet (allocate 
 import re
 from ..inline import inline_view
 from ..mir import AnchorLost
-from ..util import new_async_helpers, must_pass, df_of, fn_short, in_set, operand_path, path_last, backward_slice, field_writers, callers_keys, guard_across_yield, switch_on, switch_edges, yields
+from ..util import uses_of_local, new_async_helpers, must_pass, df_of, fn_short, in_set, operand_path, path_last, backward_slice, field_writers, callers_keys, guard_across_yield, switch_on, switch_edges, yields
 
 C = "scylla::network::connection::"
 
@@ -319,9 +319,51 @@ def r9(ctx, facts):
     r.instance("header-then-body", n_exact + n_buf >= 2, "expected a header read and a body read (%d/%d)" % (n_exact, n_buf), b.span, nontrivial=False)
 
 
+AWAIT_PLUMBING = ("core::future::into_future::IntoFuture::into_future", "core::pin::Pin::<Ptr>::new_unchecked", "core::pin::Pin::<&'a mut T>::new_unchecked",
+                  "core::future::future::Future::poll", "core::pin::Pin::<Ptr>::as_mut", "core::pin::Pin::<&mut T>::new")
+
+
+def r10(ctx, facts):
+    r = ctx.rule("R10", "a frame read, once started, is driven to its end: the reader awaits read_response_frame directly (never under a timeout / select)", floor=1)
+    b = facts.one(r"^scylla::network::connection::Connection::reader::\{closure#0\}$")
+    reads = [c for bb, c in b.calls() if bb in b.live_blocks and (c.name or "").endswith("frame::read_response_frame")]
+    if not reads:
+        raise AnchorLost("Connection::reader: call of frame::read_response_frame not found")
+    for c in reads:
+        work, seen, escapes = [c.dest[0]], set(), []
+        while work:
+            l = work.pop()
+            if l in seen:
+                continue
+            seen.add(l)
+            for ub, where, _op in uses_of_local(b, l):
+                if where[0] == "stmt":
+                    st = where[1]
+                    if st[2][0] == "agg" and st[2][1][0] in ("closure", "coroutine", "coroutine_closure", "adt", "tuple"):
+                        escapes.append(("stored into %s" % st[2][1][0], b.stmt_span(st)))
+                    else:
+                        work.append(st[1][0])
+                elif where[0] == "ref":
+                    work.append(where[1][1][0])
+                elif where[0] == "arg":
+                    t = b.term(ub)
+                    nm = t[1].get("def") or ""
+                    last = nm.split("::")[-1]
+                    if last == "poll" and nm.startswith("core::future::"):
+                        pass            # polled in place: what comes out is the frame, not the future
+                    elif nm in AWAIT_PLUMBING or (nm.startswith("core::") and last in ("into_future", "new_unchecked", "as_mut")):
+                        work.append(t[3][0])
+                    else:
+                        escapes.append(("handed to " + (nm or "?"), b.term_span(ub)))
+        r.instance("frame-read-awaited-directly", not escapes,
+                   "the future of read_response_frame is %s: a wrapper that can drop it half-way (timeout, select, race) loses the bytes already consumed, and the reader "
+                   "re-synchronises inside the frame's body - the next 'header' and stream id are payload bytes" % "; ".join(e[0] for e in escapes[:2]),
+                   escapes[0][1] if escapes else c.span)
+
+
 def check(ctx):
     facts = inline_view(ctx.facts("default"))
-    for fn in (r1_r2, r3_r4, r5, r6, r7, r8, r9):
+    for fn in (r1_r2, r3_r4, r5, r6, r7, r8, r9, r10):
         try:
             fn(ctx, facts)
         except AnchorLost as ex:
